@@ -133,7 +133,8 @@ DEFAULT_YEARLY = [column("AKTUELL", "%s", 12)]
 DEFAULT_CROP = [column("Crop", "%s", 8), column("HarvestYear", "%d", 6), column("HarvestDOY", "%d", 6)]
 
 
-def write_project(root, pname, cfg, rotation, daily=None, yearly=None, crop=None, raw_confs=None):
+def write_project(root, pname, cfg, rotation, daily=None, yearly=None, crop=None, raw_confs=None, rot_mode="contiguous", crop_csv=False,
+                  pfout=None, management=False, no_daily_conf=False):
     """rotation: [(crop, sow date|None, harvest date)]; the first entry is the previous crop (harvest = start)"""
     pdir = os.path.join(root, "project", pname)
     os.makedirs(pdir)
@@ -145,19 +146,55 @@ def write_project(root, pname, cfg, rotation, daily=None, yearly=None, crop=None
     open(os.path.join(pdir, "til_%s.txt" % pname), "w").write("Field_ID  Ti Typ date\n          cm\nend\n")
     open(os.path.join(pdir, "irr_%s.txt" % pname), "w").write("Field_ID  Ir N03 date\n          mm mg/l \nend\n")
     c = dict(CONFIG_DEFAULT); c.update(cfg)
+    if crop_csv:
+        c["CropFileFormat"] = "'csv'"
+    if management:
+        c["ManagementEvents"] = 1
     with open(os.path.join(pdir, "config.yml"), "w") as f:
         for k, v in c.items():
             if k in ("EndDate", "AnnualOutputDate", "WeatherFolder", "WeatherRootFolder"):
                 v = '"%s"' % v
             f.write("%s: %s\n" % (k, v))
-    with open(os.path.join(pdir, "crop_%s.txt" % pname), "w") as f:
-        f.write("Field_ID    crp  sowing harvst Rex yld autorg variety comment\n")
-        for i, (crp, sow, har) in enumerate(rotation):
-            f.write("%-9s %-3s %s %s %s %s 0 \n" % (FIELD, crp, fdate(sow, c["Dateformat"]) if sow else "-" * len(fdate(har, c["Dateformat"])), fdate(har, c["Dateformat"]),
-                                                     "080" if i == 0 else "000", "050" if i == 0 else "000"))
-        f.write("end\n")
+    # rotation file: the lines of the plot's field need not be contiguous — files sorted by date hold several fields interleaved
+    mine = []
+    for i, (crp, sow, har) in enumerate(rotation):
+        mine.append((FIELD, crp, fdate(sow, c["Dateformat"]) if sow else "-" * len(fdate(har, c["Dateformat"])), fdate(har, c["Dateformat"]),
+                     "080" if i == 0 else "000", "050" if i == 0 else "000"))
+    def other(k, name):
+        d0 = rotation[0][2] + datetime.timedelta(days=100 * k)
+        return (name, "WW", fdate(d0, c["Dateformat"]), fdate(d0 + datetime.timedelta(days=200), c["Dateformat"]), "000", "000")
+    rows = []
+    if rot_mode == "contiguous":
+        rows = mine
+    elif rot_mode == "first":
+        rows = mine + [other(k, "ZZOTHER") for k in range(3)]
+    elif rot_mode == "last":
+        rows = [other(k, "AAOTHER") for k in range(3)] + mine
+    else:   # interleaved: another field's line(s) between the plot's lines, two different other fields
+        rows = [other(0, "AAOTHER")]
+        for k, m_ in enumerate(mine):
+            rows.append(m_)
+            rows.append(other(k + 1, "AAOTHER" if k % 2 else "ZZOTHER"))
+            if k % 3 == 2:
+                rows.append(other(k + 2, "ZZOTHER"))
+    if crop_csv:
+        with open(os.path.join(pdir, "crop_%s.csv" % pname), "w") as f:
+            f.write("Field_ID,crop,sowing,harvest,Rex,yld,autorg,variety,comment\n")
+            for r_ in rows:
+                f.write("%s,%s,%s,%s,%s,%s,0,,\n" % r_)
+    else:
+        with open(os.path.join(pdir, "crop_%s.txt" % pname), "w") as f:
+            f.write("Field_ID    crp  sowing harvst Rex yld autorg variety comment\n")
+            for r_ in rows:
+                f.write("%-9s %-3s %s %s %s %s 0 \n" % r_)
+            f.write("end\n")
     raw_confs = raw_confs or {}
-    open(os.path.join(pdir, "dailyout_conf.yml"), "w").write(raw_confs.get("daily") or out_conf_text(daily or DEFAULT_DAILY))
+    if not no_daily_conf:
+        open(os.path.join(pdir, "dailyout_conf.yml"), "w").write(raw_confs.get("daily") or out_conf_text(daily or DEFAULT_DAILY))
+    if pfout:
+        open(os.path.join(pdir, "pfout_conf.yml"), "w").write(out_conf_text(pfout))
+    if management:
+        shutil.copy(os.path.join(REPO, "examples", "project", "ex3", "managementout_conf.yml"), pdir)
     open(os.path.join(pdir, "yearlyout_conf.yml"), "w").write(raw_confs.get("yearly") or out_conf_text(yearly or DEFAULT_YEARLY))
     open(os.path.join(pdir, "cropout_conf.yml"), "w").write(raw_confs.get("crop") or out_conf_text(crop or DEFAULT_CROP))
     return pdir
@@ -180,7 +217,7 @@ def year_ext(j):
     return "0" + s[1:3] if j >= 100 else "9" + s
 
 
-def write_weather(root, folder, layout, fcode, series, numheader=None, skip_years=(), windhi=None, order=None):
+def write_weather(root, folder, layout, fcode, series, numheader=None, skip_years=(), windhi=None, order=None, none="-99.9"):
     """layout 0: one file per year 'MET_<fcode>.<ext>' (day-of-year column); 1: '<fcode>.csv' (iso-date);
     2: '<fcode>.w6d' (@YYYYJJJ, no tavg column).  Returns the config keys selecting it."""
     wdir = os.path.join(root, "weather", folder)
@@ -200,7 +237,8 @@ def write_weather(root, folder, layout, fcode, series, numheader=None, skip_year
                     hdr = hdr[:nh]
                 f.write("\n".join(hdr) + "\n")
                 for d, r in recs:
-                    f.write(";".join([r["tavg"], r["tmin"], r["tmax"], "-99.9", r["rh"], "-99.9", r["wind"], "-99.9", r["rad"],
+                    # optional columns (reference evapotranspiration, saturation deficit, sunshine hours): the record's value or the sentinel
+                    f.write(";".join([r["tavg"], r["tmin"], r["tmax"], r.get("et0", none), r["rh"], r.get("verd", none), r["wind"], r.get("sund", none), r["rad"],
                                       r["prec"], str(r.get("jday", doy(d)))]) + "\n")
         return {"WeatherFile": "'MET_%s.'", "WeatherFileFormat": 0, "WeatherNumHeader": nh}
     if layout == 1:
